@@ -51,6 +51,15 @@ def new_context_rule(ctx: Ctx, rid: str) -> None:
             if isinstance(a_, ast.Assign) and len(a_.targets) == 1 and isinstance(a_.targets[0], ast.Subscript) and ast.unparse(a_.targets[0].value) == "parent" and ast.unparse(a_.value) == vn_:
                 ok_lm = ok_lm or (f"{vn_} is missing", False) in astq.guard_atoms(fi.node, a_)
     ctx.check(ok_lm, "locals-merge", "runtime:new_context", "locals merge", "locals must be merged into the child context, skipping `missing` values", fi.loc())
+    # what an included / imported template receives: the template's own top-level variables
+    # override the names it was rendered with (a `{% set %}` shadows a context variable)
+    ga = ctx.repo.func("runtime:Context.get_all")
+    merges = [(r, astq.merge_order(r.value)) for r in astq.returns(ga.node) if r.value is not None and astq.merge_order(r.value) is not None]
+    ok_ga = len(merges) == 1 and merges[0][1] == ["self.parent", "self.vars"]
+    others = sorted(ast.unparse(r.value) for r in astq.returns(ga.node) if r.value is not None and astq.merge_order(r.value) is None)
+    ctx.check(ok_ga and set(others) <= {"self.parent", "self.vars"}, "get_all:precedence", "runtime:Context.get_all", f"merge order {merges[0][1] if merges else None}",
+              f"Context.get_all must overlay self.vars on self.parent (later wins): it returns `{ast.unparse(merges[0][0].value) if merges else None}` with precedence {merges[0][1] if merges else None}; with the parent on top an include / import-with-context sees the render-time value of a name the including template has re-bound with `{{% set %}}`",
+              ga.loc(), detail={"merge": merges[0][1] if merges else None, "shortcuts": others})
     ctx.check("dict(globals or (), **vars)" in src, "globals-merge", "runtime:new_context", "globals under vars", "a non-shared context must be built from the template globals overlaid with the passed variables", fi.loc())
     dv = ctx.repo.func("runtime:Context.derived")
     s = ast.unparse(dv.node)
